@@ -82,7 +82,11 @@ INVALID_KINDS = ['bad_json', 'top_list', 'policy_scalar', 'preset_scalar',
                  'policy_zero', 'policy_false', 'preset_empty_list',
                  'preset_zero', 'groups_empty_list', 'group_null',
                  'operations_null', 'operations_empty_list', 'top_null',
-                 'top_zero', 'top_empty_string']
+                 'top_zero', 'top_empty_string',
+                 # broken at the level of bytes: what an editor, a copy in
+                 # progress or a full disk leaves behind
+                 'empty_file', 'whitespace_only', 'truncated_half',
+                 'truncated_one', 'nul_bytes', 'non_utf8', 'bom']
 OTS = ['SYMMETRIC_KEY', 'PUBLIC_KEY', 'CERTIFICATE', 'SECRET_DATA']
 OPS = ['GET', 'LOCATE', 'DESTROY', 'ACTIVATE', 'GET_ATTRIBUTES']
 PERMS = ['ALLOW_ALL', 'ALLOW_OWNER', 'DISALLOW_ALL']
@@ -126,6 +130,22 @@ def invalid_text(kind, good, pos=0):
     first = list(doc)[min(pos, len(doc) - 1)]
     if kind == 'bad_json':
         return json.dumps(doc)[:-3] + ',,'
+    if kind == 'empty_file':
+        return ''
+    if kind == 'whitespace_only':
+        return ' \n\t\n'
+    if kind == 'truncated_half':
+        text = json.dumps(doc)
+        return text[:len(text) // 2]
+    if kind == 'truncated_one':
+        return json.dumps(doc)[:1]
+    if kind == 'nul_bytes':
+        return '\x00' * 64
+    if kind == 'non_utf8':
+        # written with surrogateescape: the byte 0xff inside a name
+        return json.dumps(doc).replace('"', '"\udcff', 1)
+    if kind == 'bom':
+        return '\ufeff' + json.dumps(doc)
     if kind == 'top_list':
         return json.dumps([1, 2])
     if kind == 'policy_scalar':
@@ -436,7 +456,8 @@ def execute(plan):
 
     def write_file(f, text, tie=False):
         p = path(f)
-        with open(p, 'w') as fh:
+        with open(p, 'w', encoding='utf-8',
+                  errors='surrogateescape') as fh:
             fh.write(text)
         t = clock.now
         if tie and f in mtimes:
@@ -450,6 +471,7 @@ def execute(plan):
     def good_defs(text):
         """Parse with an independent reading of the documented format."""
         try:
+            text.encode('utf-8')
             doc = json.loads(text)
         except Exception:
             return None
@@ -528,7 +550,7 @@ def execute(plan):
             mt = os.path.getmtime(path(f))
             if mt > seen_mtime.get(f, 0):
                 seen_mtime[f] = mt
-                with open(path(f)) as fh:
+                with open(path(f), encoding='utf-8', errors='surrogateescape') as fh:
                     text = fh.read()
                 defs = good_defs(text)
                 if defs is None:
@@ -794,7 +816,7 @@ def final_scan_model(M, path, good_defs, files):
     existing file loaded once, in one scan."""
     for f in sorted(files):
         if os.path.exists(path(f)):
-            with open(path(f)) as fh:
+            with open(path(f), encoding='utf-8', errors='surrogateescape') as fh:
                 defs = good_defs(fh.read())
             if defs is None:
                 continue
